@@ -25,6 +25,7 @@ RULE = ('Each case = a generated dense dataset (random templates / whitening / a
 RULE += " Added classes: returned summary arrays overwritten in place by the caller before the summaries are read again; datasets shipping only whitening_mat_inv.npy; probes of 13-32 channels with 1-3 shanks and n_closest_channels / amplitude_threshold entries, on which the peak channel and duration of every curated cluster are also derived from the files alone (weighted mean of its templates on the dominant template's channels) wherever that definition and the extremum are unambiguous."
 RULE += ' Round 6: a Kilosort-2 templates_ind.npy present; NaN first-component features (depth NaN).'
 RULE += ' Round 7: probes described in metres; templates all of whose spikes have amplitude 0; a channel listed twice in a feature column table.'
+RULE += ' Round 8: merged clusters whose dominant template is exactly zero on a shared site; stale spikes.depths.npy / clusters.* ALF result files lying in the dataset folder; depth tolerance relative to the coordinates.'
 EXHAUSTIVE = {'quick': False, 'thorough': False}
 FLOORS = {'quick': {'evaluations': 1400, 'distinct_nontrivial': 800},
           'thorough': {'evaluations': 15000, 'distinct_nontrivial': 8000}}
